@@ -154,7 +154,9 @@ func runC17(c *Ctx) {
 			seenNames := map[string]bool{"context": true, "ucum": true}
 			for _, i := range list {
 				k := kinds[i]
-				if strings.Contains(k.shape, "b") {
+				// unsupported: a value that is neither a System value nor a FHIR element, wherever it
+				// sits, and a collection inside a collection (collections do not nest)
+				if strings.Contains(k.shape, "b") || strings.Count(k.shape, "c(") >= 2 {
 					wantU = true
 					continue
 				}
